@@ -199,7 +199,7 @@ pub fn ob_map_entry<S: Src, const N: usize>(s: &mut S) -> Chk {
     let by_ref = s.bool();
     let ins_stamp = if by_ref { STAMP_FROM_Q } else { STAMP_PROBE };
     let q = QKey(id);
-    let op = s.below(12);
+    let op = s.below(14);
     if !by_ref {
         let e = map.entry(pk(id));
         ensure!(matches!(e, Entry::Occupied(_)) == want.is_some(), "HashMap::entry is Occupied exactly when the key is present");
@@ -274,6 +274,28 @@ pub fn ob_map_entry<S: Src, const N: usize>(s: &mut S) -> Chk {
                     None => ensure!(matches!(e2, Entry::Vacant(_)), "Entry::and_replace_entry_with leaves a vacant entry vacant"),
                 }
             }
+            12 | 13 => {
+                // chain of length 3: insert (-> occupied) . replace_entry_with(None) (-> vacant) . insert / or_insert
+                let o = e.insert(nv);
+                let e2 = o.replace_entry_with(|_, _| None);
+                ensure!(matches!(e2, Entry::Vacant(_)), "replace_entry_with(None) hands back a vacant entry");
+                let nv2 = nv ^ 0x5A5A;
+                let kept_stamp = match want {
+                    Some(i) => m[i].2,
+                    None => ins_stamp,
+                };
+                if op == 12 {
+                    let v = *e2.or_insert(nv2);
+                    ensure!(v == nv2, "re-insertion through the vacant entry returned by replace_entry_with stores the value");
+                } else if let Entry::Vacant(v) = e2 {
+                    let o2 = v.insert_entry(nv2);
+                    ensure!(*o2.get() == nv2, "insert_entry through the vacant entry returned by replace_entry_with");
+                }
+                match want {
+                    Some(i) => m[i] = (id, nv2, kept_stamp),
+                    None => m.push((id, nv2, kept_stamp)),
+                }
+            }
             _ => match e {
                 Entry::Occupied(mut o) => {
                     let i = want.unwrap();
@@ -339,6 +361,22 @@ pub fn ob_map_entry<S: Src, const N: usize>(s: &mut S) -> Chk {
         let e = map.entry_ref(&q);
         ensure!(matches!(e, EntryRef::Occupied(_)) == want.is_some(), "HashMap::entry_ref is Occupied exactly when the key is present");
         match op {
+            12 | 13 => {
+                let o = e.insert(nv);
+                let e2 = o.replace_entry_with(|_, _| None);
+                ensure!(matches!(e2, Entry::Vacant(_)), "EntryRef occupied replace_entry_with(None) hands back a vacant entry");
+                let nv2 = nv ^ 0xA5A5;
+                let kept_stamp = match want {
+                    Some(i) => m[i].2,
+                    None => ins_stamp,
+                };
+                let v = *e2.or_insert(nv2);
+                ensure!(v == nv2, "re-insertion through the vacant entry (entry_ref chain) stores the value");
+                match want {
+                    Some(i) => m[i] = (id, nv2, kept_stamp),
+                    None => m.push((id, nv2, kept_stamp)),
+                }
+            }
             0 | 1 => {
                 let v = *e.or_insert(nv);
                 match want {
